@@ -36,7 +36,9 @@ LEVEL_TEXT = (
     "schedule), C06_B_partial (without the lock: safe for all schedules in which no read lands between tell() and seek(0, END)), "
     "C06_B_cex (the pinned snapshot's behaviour: duplicated data; fixed finding, a recurrence is a violation). C. tee_stdout / the $() branch of iterraw / get_formatted_lines: C06_C_independent_partial "
     "(whole-line fragmentations of the same bytes give the same lines/.out/.raw_out), C06_C_plain_exact, C06_C_stdout_path ($() is a "
-    "function of the payload alone for all chunkings and schedules), C06_C_stdout_oneline, C06_raw_out; the unrestricted statement "
+    "function of the payload alone for all chunkings and schedules), C06_C_stdout_oneline, C06_raw_out; C06_H_reads (history machine "
+    "over ended / _output / lines: whatever was read before, every read after the end is the formatted text of ALL lines and every "
+    "read before it of a prefix; C06_H_cex_stale_cache shows what caching an early read would break); the unrestricted statement "
     "is false: C06_C_cex_crlf / _multibyte / _escape / _oneline / _crcrlf / _cr_onefragment / _stdout_vt (known findings). C06_rtn, C06_rtn_alias_table. "
     "Tie: every model function against the real class / builtin on generated inputs, and whole pipelines (1-4 stages, processes and "
     "threaded / unthreaded callable aliases, $() / !() .out .raw_out .rtn iteration / @$(), payloads empty to 4 pipe buffers around "
@@ -576,7 +578,32 @@ def _run_case(case):
                 obs["views"]["taken"] = [_enc_text(x) for x in taken]
                 if case.get("partial_wait"):
                     time.sleep(case["partial_wait"])
+            # the view-reading schedule BEFORE the end: non-blocking reads right after creation, after a delay, in the middle of an
+            # iteration that is afterwards resumed to its end (not abandoned)
+            it, taken, early = None, [], []
+            for step in case.get("early") or []:
+                if step[0] == "output":
+                    early.append(["output", len(taken), bool(p.ended), _enc_text(p.output)])
+                elif step[0] == "lines":
+                    early.append(["lines", len(taken), bool(p.ended), len(p.lines)])
+                elif step[0] == "sleep":
+                    time.sleep(step[1])
+                elif step[0] == "iter":
+                    if it is None:
+                        it = iter(p)
+                    for _ in range(step[1]):
+                        try:
+                            taken.append(next(it))
+                        except StopIteration:
+                            break
+            if case.get("early"):
+                obs["early"] = early
+            if it is not None:
+                taken += list(it)
+                obs["views"]["iter"] = [_enc_text(x) for x in taken]
             for v in case["views"]:
+                if v == "iter" and it is not None:
+                    continue
                 if v == "out":
                     obs["views"]["out"] = _enc_text(p.out, exp)
                 elif v == "raw_out":
@@ -822,6 +849,18 @@ def gen_case(rng, cid, big_ok=True, many_aliases=False, forms=("stdout", "object
         if "rtn" not in views:
             views.append("rtn")
         case["views"] = views
+        if rng.random() < 0.4:
+            # reads before the command has ended are part of the program: .output / .lines right after creation, after a delay
+            # shorter than the writer's script, after k iterated lines (the iteration is resumed afterwards)
+            early = []
+            for _ in range(rng.randint(1, 4)):
+                r = rng.random()
+                early.append(["output"] if r < 0.45 else ["lines"] if r < 0.55 else ["sleep", rng.choice([0.001, 0.01, 0.05])] if r < 0.7 else ["iter", rng.choice([0, 1, 1, 2, 5, 40])])
+            if not any(e[0] == "output" for e in early):
+                early.append(["output"])
+            case["early"] = early
+            if not any(v in views for v in ("out", "str")):
+                views.insert(0, rng.choice(["out", "str"]))
     alias_idx = [i for i, st in enumerate(stages) if st["kind"] == "alias"]
     if len(alias_idx) >= 2:
         if any(stages[i].get("mode") == "inner" for i in alias_idx):
@@ -1099,6 +1138,19 @@ def judge(ctx, stream, case, obs):
                         tk = K_ONEFRAG  # 'one line' = one FRAGMENT: the newline goes although the text has CR-separated lines
                     fail(f".{name} is not the text the final stage wrote (modulo CR/CRLF->LF and escape stripping)",
                          {"len": len(got or ""), "head": (got or "")[:120], "tail": (got or "")[-80:], "expected_len": len(exp), "cut": cut}, tk)
+        for kind_, ntaken, was_ended, val in obs.get("early") or []:
+            ctx.count("early-read/" + kind_ + ("/after-end" if was_ended else "/before-end"))
+            if kind_ == "lines":
+                # before the end `lines` holds exactly what the iteration has yielded so far
+                if not was_ended and val != ntaken:
+                    fail("an early read of .lines does not hold the lines iterated so far", {"lines": val, "iterated": ntaken}, key_bytes)
+                continue
+            got = dec_text(val, exp)
+            sofar = o_lines if was_ended else o_lines[:ntaken]
+            want = "".join(chr(c) for c in ctx.driver.call("c06.fmt", [codes(x) for x in sofar]))
+            if got != want:
+                ctx.disagree(stream, csum, {"early_output": (got or "")[:120], "after_lines": ntaken, "ended": was_ended}, {"early_output": want[:120]})
+                fail("a read of .output before the end is not the text of the lines delivered so far", {"value": (got or "")[:120], "expected": want[:120], "lines_iterated": ntaken}, key_bytes)
         if "iter" in views:
             got = [dec_text(x, exp) for x in views["iter"]]
             faithful = [codes(x) for x in got] == m_lines
@@ -1155,6 +1207,24 @@ def _unit_worker(item):
                 "fmt_frag": [ord(c) for c in L.CommandPipeline.get_formatted_lines(fake, [x.decode("latin-1") for x in bl])],
             })
         return {"out": out, "pattern": L.RE_HIDE_ESCAPE.pattern}
+    if kind == "history":
+        import xonsh.procs.pipelines as L
+
+        res = []
+        for ops in item["runs"]:
+            fake = types.SimpleNamespace(ended=False, _output=None, lines=[], output_format="stream_lines")
+            fake.get_formatted_lines = lambda lines, fake=fake: L.CommandPipeline.get_formatted_lines(fake, lines)
+            outs = []
+            for op in ops:
+                if op[0] == "deliver":
+                    if not fake.ended:  # (tee_stdout appends to `lines`; nothing arrives after `_end`)
+                        fake.lines.append(op[1])
+                elif op[0] == "finish":
+                    fake.ended = True
+                else:
+                    outs.append([bool(fake.ended), L.CommandPipeline.output.fget(fake)])
+            res.append(outs)
+        return res
     if kind == "qreader":
         import xonsh.procs.readers as R
 
@@ -1418,6 +1488,56 @@ def stream_qreader(ctx, n, name="queue-reader-ops"):
                 ctx.spec_failure({"stream": name, "chunks": chunks, "ops": ops}, {"handed_on": handed}, "QueueReader lost / duplicated / reordered bytes", None)
 
 
+def stream_history(ctx, n, name="output-history"):
+    ctx.stream_rule(
+        name,
+        "the real CommandPipeline.output property on an object whose lines / ended / _output are driven through random histories "
+        "(lines delivered, reads before the end, the end, reads after it): every value is compared with the Lean history machine, "
+        "and the property is checked on the real values — a read after the end is the formatted text of ALL lines, a read before "
+        "it of the lines so far; non-trivial = a read before the end is followed by more lines and a read after the end",
+    )
+    runs = []
+    for _ in range(n):
+        ops, ended = [], False
+        for _ in range(ctx.rng.randint(1, 12)):
+            r = ctx.rng.random()
+            if r < 0.45:
+                ops.append(["deliver", ctx.rng.choice(["a\n", "bc\n", "\n", "d", "e\n"])])
+            elif r < 0.85:
+                ops.append(["read"])
+            elif not ended or ctx.rng.random() < 0.3:
+                ops.append(["finish"])
+                ended = True
+        ops += [["finish"], ["read"]]
+        runs.append(ops)
+    real = run_unit({"kind": "history", "runs": runs})
+    for ops, rr in zip(runs, real):
+        sops = [[Sym("deliver"), codes(o[1])] if o[0] == "deliver" else Sym(o[0]) for o in ops]
+        m_reads, m_full = ctx.driver.call("c06.hist", False, sops)
+        got = [[e, codes(v)] for e, v in rr]
+        fin = next(i for i, o in enumerate(ops) if o[0] == "finish")
+        nontriv = any(o[0] == "read" for o in ops[:fin]) and any(o[0] == "deliver" for o in ops[:fin])
+        ctx.case(name, repr(ops), nontriv, {"ops": ops[:8]})
+        if got != m_reads:
+            ctx.disagree(name, {"ops": ops}, rr, [[e, "".join(chr(c) for c in v)] for e, v in m_reads])
+        full = "".join(chr(c) for c in m_full)
+        sofar, k, bad = [], 0, None
+        ended = False
+        for o in ops:
+            if o[0] == "deliver" and not ended:
+                sofar.append(o[1])
+            elif o[0] == "finish":
+                ended = True
+            elif o[0] == "read":
+                e, v = rr[k]
+                k += 1
+                want = full if ended else "".join(chr(c) for c in ctx.driver.call("c06.fmt", [codes(x) for x in sofar]))
+                if v != want and bad is None:
+                    bad = {"read_number": k, "after_the_end": ended, "value": v, "expected": want}
+        if bad:
+            ctx.spec_failure({"stream": name, "history": ops}, bad, "a read of the output view does not return the text delivered (so far / in full after the end)", None)
+
+
 def stream_populate(ctx, n, name="populate-fd-queue"):
     ctx.stream_rule(
         name,
@@ -1628,7 +1748,8 @@ PIPE_RULE = (
     "stdout.write, print or their return value / an unthreaded alias / head -c), @thread / @unthread on the last stage, exit codes "
     "and alias return-value forms, stderr markers; payload kinds plain, utf8, crlf, esc, binary, oneline, vt, longline, crcrlf, sizes "
     "0..8193 around every 1024 multiple and (when allowed) 65535..262145; capture forms $(), !() with views .out .raw_out .rtn "
-    "iteration str() in random order, @$(); 60% of the programs with seeded random delays injected around populate_fd_queue, "
+    "iteration str() in random order — for 40% of the !() programs preceded by a schedule of reads BEFORE the end (.output / .lines "
+    "right after creation, after a short delay, after k iterated lines of an iteration that is resumed afterwards) — and @$(); 60% of the programs with seeded random delays injected around populate_fd_queue, "
     "queue.put, read_queue, PopenThread.run/_read_write/_alt_mode_writer, iterraw (every yield), _close_prev_procs, "
     "_prev_procs_done, PrevProcCloser.run, ProcProxyThread.run, parse_proxy_return, PipeChannel.close_*. Correspondence: lines/.out/"
     ".raw_out vs the shaping model on the fragments iterraw really yielded, $() vs the $()-path model, .rtn vs the return-code model. "
@@ -1661,6 +1782,7 @@ def run(ctx):
     stream_prims(ctx, ctx.n(400, 4000))
     stream_qreader(ctx, ctx.n(150, 2000))
     stream_populate(ctx, ctx.n(12, 120))
+    stream_history(ctx, ctx.n(150, 2000))
     stream_membuf(ctx, ctx.n(200, 3000))
     ctx.stream_rule("pipelines", PIPE_RULE)
     stream_pipelines(ctx, ctx.n(190, 2400), big_ok=False)
